@@ -232,6 +232,7 @@ func exploreRun(in interface{}) (string, interface{}, map[string]int) {
 	var opsT, obsT []string
 	st := map[string]int{"ops": len(c.Ops)}
 	jobinfos := 0
+	smJobs := []string{"job0", "job1", "job2"}
 	for _, op := range c.Ops {
 		ob := xObs{}
 		doneNoDrop := false
@@ -254,14 +255,22 @@ func exploreRun(in interface{}) (string, interface{}, map[string]int) {
 			}
 			e.UpdateTargets(m)
 		case "apply":
-			_ = e.ApplyConfig(xJobCfg(op.Cfg))
-		case "jobinfo": // the scrape manager is reloaded alone: from now on it has a client for exactly these jobs
-			// ... and every second reload changes the jobs' metric relabeling (the http client settings stay the same)
+			// a reload reaches the scrape manager too (same jobs as it has, so nothing the model sees changes), and every
+			// second reload changes the jobs' metric relabeling while the http client settings stay the same
 			jobinfos++
 			w.mu.Lock()
 			w.noDrop = jobinfos%2 == 1
 			nd := w.noDrop
 			w.mu.Unlock()
+			_ = sm.ApplyConfig(xJobCfgRule(smJobs, nd))
+			_ = e.ApplyConfig(xJobCfg(op.Cfg))
+		case "jobinfo": // the scrape manager is reloaded alone: from now on it has a client for exactly these jobs
+			jobinfos++
+			w.mu.Lock()
+			w.noDrop = jobinfos%2 == 1
+			nd := w.noDrop
+			w.mu.Unlock()
+			smJobs = op.Cfg
 			_ = sm.ApplyConfig(xJobCfgRule(op.Cfg, nd))
 		case "done":
 			w.mu.Lock()
